@@ -95,7 +95,9 @@ pub fn message_string(r: &mut Rng) -> String {
         1 => "Subscription maximum slots count reached".to_owned(),
         2 => "User cannot be authenticated or the subscription has expired".to_owned(),
         3 => "appointment not found".to_owned(),
-        _ => sig_string(r, true),
+        // (no '%': tonic 0.11 does not escape it in the grpc-message header of the internal hop, so a message with
+        //  "%xx" in it reaches the HTTP layer altered; the internal API's messages are fixed ASCII sentences without it)
+        _ => sig_string(r, true).replace('%', "_"),
     }
 }
 
